@@ -99,6 +99,13 @@ class TracedSampler(Sampler):
         elif not reg.events:
             self._emit('Init')
             self._flush()
+        else:
+            # resume=True but no checkpoint exists yet: nautilus starts from scratch
+            reg.pc = 'out'
+            reg.run = dict(reg.run, active=False)
+            reg.neff_met = False
+            self._emit('Restart')
+            self._flush()
 
     # ------------------------------------------------------------------ event plumbing
     def _flush(self):
@@ -119,7 +126,7 @@ class TracedSampler(Sampler):
             reg.pc = 'bounded'
         elif name == 'AddSamples':
             reg.pc = 'top' if ev.pop('_explored_before') else 'batched'
-        elif name in ('RunReturn', 'Resume'):
+        elif name in ('RunReturn', 'Resume', 'Restart'):
             reg.pc = 'out'
         if name in ('Resume', 'SetDiscard'):
             reg.neff_met = False
